@@ -98,7 +98,7 @@ def run(ctx):
             holder = {}
 
             def read_file():
-                holder["fm"] = JSONReader(path).transform()
+                holder["fm"] = fmt.read_twice(JSONReader, path)
                 return holder["fm"]
             iread = sx.dumps(fmt.result_pfm(read_file))
             r.record("writer-output", rreq, iread, mread)
@@ -170,7 +170,7 @@ def run(ctx):
             holder = {}
 
             def read_file():
-                holder["fm"] = JSONReader(path).transform()
+                holder["fm"] = fmt.read_twice(JSONReader, path)
                 return holder["fm"]
             iread = sx.dumps(fmt.result_pfm(read_file))
             r.record(label, rreq, iread, mread)
